@@ -1,10 +1,12 @@
 ----------------------------- MODULE FreshTrace -----------------------------
 (* TV form: each trace is the id-canonicalised history of what real SPSDK interpreters produced:                     *)
 (*   Import(n)                      an interpreter imported SPSDK (n = values drawn meanwhile, informative)           *)
-(*   Construct(art, kind, how, ex, f, x)   f = ids read from the public attributes of the new object                  *)
+(*   Construct(art, kind, how, ex, opt, part, f, x)   part `part` of a build with the options opt (Fresh!Opts, Fresh!Parts); *)
+(*                                  f = ids read from the public attributes of the new object                         *)
 (*   Reconfigure(art, of, kind, ex, f, x)  the object of artefact `of` went through load_from_config again and now holds  *)
 (*                                  artefact art; f = ids read from the public attributes afterwards                  *)
-(*   Export(art, f, skip, x)        f = ids read from the exported bytes (every field; skip = narrow fields left out) *)
+(*   Export(art, f, skip, seen, x)  f = ids read from the exported bytes (every field; skip = narrow fields left out); *)
+(*                                  seen = the options as the exported bytes show them (Fresh!Seen)                   *)
 (*   Restart                        the interpreter ended, the next events come from a fresh one                      *)
 (* x = fields whose freshness is not asserted in this event because this run already reported them under a key that   *)
 (* known_findings.jsonl lists (they are still recorded, so that other artefacts sharing them are noticed).            *)
@@ -18,10 +20,10 @@ Is(e) == l <= Len(T) /\ E.ev = e
 Adv == l' = l + 1 /\ UNCHANGED tid
 TInit == tid \in 1..Len(Traces) /\ l = 1 /\ Init /\ TLCSet(tid, 1)
 TImport == Is("Import") /\ Import(E.n) /\ Adv
-TConstruct == Is("Construct") /\ E.art = Len(arts) + 1 /\ Construct(E.kind, E.how, ToSet(E.ex), E.f, ToSet(E.x)) /\ Adv
+TConstruct == Is("Construct") /\ E.art = Len(arts) + 1 /\ Construct(E.kind, E.how, ToSet(E.ex), E.opt, E.part, E.f, ToSet(E.x)) /\ Adv
 TReconfigure == Is("Reconfigure") /\ E.art = Len(arts) + 1 /\ E.of \in DOMAIN arts /\ E.kind = Art(E.of).kind
                 /\ Reconfigure(E.of, ToSet(E.ex), E.f, ToSet(E.x)) /\ Adv
-TExport == Is("Export") /\ E.art \in DOMAIN arts /\ Export(E.art, E.f, ToSet(E.skip), ToSet(E.x)) /\ Adv
+TExport == Is("Export") /\ E.art \in DOMAIN arts /\ Export(E.art, E.f, ToSet(E.skip), E.seen, ToSet(E.x)) /\ Adv
 TRestart == Is("Restart") /\ imported /\ Restart /\ Adv
 TNext == TImport \/ TConstruct \/ TReconfigure \/ TExport \/ TRestart
 Constr == IF TLCGet(tid) < l THEN TLCSet(tid, l) ELSE TRUE
